@@ -24,6 +24,7 @@ type FuncResult struct {
 	eng        *Engine
 	trusted    bool
 	deadClauses []string
+	deadWant    int // declared number of unreachable returns (`dead returns n`)
 	fc *FuncContract
 	entry map[types.Object]Value
 	entryState *State
@@ -238,6 +239,7 @@ func (e *Engine) verifyFunc(fc *FuncContract) (res *FuncResult) {
 	// vacuity: the precondition (with type invariants) must be satisfiable
 	e.obligs = append(e.obligs, &Oblig{name: e.fnName + "/cover:requires", kind: "cover", fn: e.fnName, props: fc.props,
 		goal: Implies(st.pc, tFalse), ndefs: len(e.defs), nfacts: len(e.facts), pos: fc.where})
+	res.deadWant = fc.deadCount
 	if fc.trusted {
 		res.trusted = true
 		res.obligs = e.obligs
@@ -308,7 +310,12 @@ func (e *Engine) verifyFunc(fc *FuncContract) (res *FuncResult) {
 			m := e.beginScope()
 			rs := r.st.clone()
 			g := e.evalClause(rs, ens, env)
+			e.retTag = r.tag
+			if e.retTag == "" {
+				e.retTag = "end of body"
+			}
 			e.oblige(rs, "post", ens.text, g, r.pos, ens)
+			e.retTag = ""
 			e.endScope(m)
 		}
 	}
